@@ -13,8 +13,8 @@
 
   Glue hypotheses, stated in every theorem: no timelock prefix (`lock = seq = none`); the tagged hashes are
   32 bytes long; the internal key is `a·G ≠ ∞`; the control block is the one `control_block` returns for the leaf
-  and has at most 128 sibling hashes (BIP341's depth limit = the length limit of ControlBlock.parse; a tree
-  with more than 2^128 leaves is needed to exceed it); the x-only keys of the points are pairwise different.
+  and has at most 128 sibling hashes (BIP341's depth limit = the length limit of ControlBlock.parse;
+  `control_block_depth_bound` derives it from C(n, k) ≤ 2^128); the x-only keys of the points are pairwise different.
   `Cfg.repaired` is the code after the C06/C07 patches (= /repo today).
 -/
 import Buidl.Proofs.ComposeTap
@@ -291,5 +291,17 @@ theorem single_leaf_spend (H : Hashes) (hL : ∀ m, (H.tapLeaf m).length = 32) (
       rw [← hpath]; simp
     exact tree_leaf_spend H hL hB env horacle (t := t) (by rw [← ht]; intro l hl; simp [Taproot.Tree.leaves] at hl; subst hl; rfl)
       a ha x0 rest T.k h32 (fun hr => ⟨hk, hk16 hr⟩) (by omega) hcb hdepth
+
+
+/-! ## the depth hypothesis -/
+
+/-- **the depth hypothesis of the spend theorems holds whenever the tree has at most 2^128 leaves**:
+    `TapBranch.combine` halves the list of the `C(n, k)` leaves, so `C(n, k) ≤ 2^128` bounds every control block
+    of `multi_leaf_tree` / `musig_tree` by 128 sibling hashes -/
+theorem control_block_depth_bound {H : Hashes} {T : TapRootMultiSig} {lock seq : Option Nat} {t : Tree}
+    (h : multiLeafTree T lock seq = some t ∨ musigTree H T lock seq = some t)
+    (hc : Nat.choose T.points.length T.k ≤ 2 ^ 128) {P : Pt} {x : Leaf} {cb : ControlBlock}
+    (hcb : t.controlBlock H P (some x) = some cb) : cb.hashes.length ≤ 128 :=
+  Nat.le_trans (controlBlock_depth H hcb) (generated_tree_depth h hc)
 
 end Buidl.Props.C13Compose
